@@ -22,10 +22,10 @@ def child_mod_cfg(file, modname, cfg):
 
 
 def child_mod(file, modname):
-    """Append `#[cfg(kani)] #[path] mod <modname>;` to `file` (harness becomes a child module, so
-    private items of the module under contract are reachable)."""
+    """Append `#[cfg(kani)] #[path] pub(crate) mod <modname>;` to `file` (harness becomes a child
+    module, so private items of the module under contract are reachable)."""
     return Edit(file, None, "append",
-                f"\n#[cfg(kani)]\n#[path = \"{modname}.rs\"]\nmod {modname};\n",
+                f"\n#[cfg(kani)]\n#[path = \"{modname}.rs\"]\npub(crate) mod {modname};\n",
                 why="harness module (cfg(kani) only)")
 
 
@@ -68,6 +68,30 @@ UNITS = {
                  "            #[cfg(kani)]\n            verif_write::at_copy(self, 1);\n",
                  why="ghost probe: stored generation just after the record copy"),
         ],
+    },
+    "shm_read": {
+        "crate": "clock-bound-shm", "features": "writer",
+        "files": [("clock-bound-shm/src/verif_read.rs", "harness/clock-bound-shm/verif_read.rs")],
+        "edits": [
+            child_mod("clock-bound-shm/src/reader.rs", "verif_read"),
+            Edit("clock-bound-shm/src/reader.rs", "        let version = version.load(atomic::Ordering::Acquire);\n", "before",
+                 "        #[cfg(kani)]\n        verif_read::environment_step();\n", why="environment step before the version load"),
+            Edit("clock-bound-shm/src/reader.rs", "        let mut first_gen = generation.load(atomic::Ordering::Acquire);\n", "before",
+                 "        #[cfg(kani)]\n        verif_read::environment_step();\n", why="environment step before the first generation load"),
+            Edit("clock-bound-shm/src/reader.rs", "            let snapshot = unsafe { self.ceb_shm.read_volatile() };\n", "before",
+                 "            #[cfg(kani)]\n            {\n                verif_read::environment_step();\n                verif_read::at_record_read();\n            }\n",
+                 why="environment step + ghost counter before the record copy"),
+            Edit("clock-bound-shm/src/reader.rs", "            let second_gen = generation.load(atomic::Ordering::Acquire);\n", "before",
+                 "            #[cfg(kani)]\n            verif_read::environment_step();\n", why="environment step before the second generation load"),
+            Edit("clock-bound-shm/src/reader.rs", "        let mut retries = 1_000_000;\n", "replace",
+                 "        #[cfg(not(kani))]\n        let mut retries = 1_000_000;\n        #[cfg(kani)]\n        let mut retries = verif_read::retry_budget();\n",
+                 why="retry budget: unchanged (1 000 000) unless the adversarial harness is running, then 3 (bounded stand-in for C18)"),
+        ],
+    },
+    "shm_header": {
+        "crate": "clock-bound-shm", "features": "writer",
+        "files": [("clock-bound-shm/src/verif_header.rs", "harness/clock-bound-shm/verif_header.rs")],
+        "edits": [child_mod("clock-bound-shm/src/shm_header.rs", "verif_header")],
     },
     "shm_compute_search": {
         "crate": "clock-bound-shm", "features": "writer",
@@ -143,6 +167,28 @@ COMPUTE_TRUSTED = ["tools/extract.py + tools/verus_gen.py (extraction, listed re
 # ---------------------------------------------------------------------------------------------
 # properties
 # ---------------------------------------------------------------------------------------------
+WR = "harness/clock-bound-shm/verif_write.rs"
+RD = "harness/clock-bound-shm/verif_read.rs"
+HD = "harness/clock-bound-shm/verif_header.rs"
+
+
+def sh(name, file, replayable=True, timeout=600, **kw):
+    d = {"name": name, "file": file, "replayable": replayable, "tier": "quick", "timeout": timeout}
+    d.update(kw)
+    return d
+
+
+SHM_WRITE_GRP = {"kind": "kani", "crate": "clock-bound-shm", "units": ["shm_write", "shm_read"], "modpath": "writer::verif_write"}
+SHM_READ_GRP = {"kind": "kani", "crate": "clock-bound-shm", "units": ["shm_read"], "modpath": "reader::verif_read"}
+SHM_HDR_GRP = {"kind": "kani", "crate": "clock-bound-shm", "units": ["shm_header"], "modpath": "shm_header::verif_header"}
+C11_WRITE = sh("c11_write_contract", WR, also=["C11.write.gen_odd_before_copy", "C11.write.gen_odd_after_copy"], timeout=300)
+OPEN_H = sh("c16_open_any_file", RD, replayable=False, timeout=900)
+POSIX = "harness/clock-bound-shm/posix_model.c"
+A_POSIX = ("POSIX model (harness/clock-bound-shm/posix_model.c, linked with -Z c-ffi): one file of 0..96 bytes that may be missing, a directory, or fail to map; "
+           "open/read/mmap/munmap/close/errno behave as the model says; only the first 24 bytes of content are symbolic, the rest reads as 0")
+A_FS_STUBS = ("ShmWriter::{is_usable_segment, wipe, mmap_segment_at} are file-system code replaced by contract stubs in the ShmWriter::new harness: probe Ok iff a reader can open the file, "
+              "wipe re-creates the file as magic/size/version 0/generation 0/zero record (its byte-level output through std::fs + byteorder is UNVERIFIED), mmap MAP_SHARED aliases the readers' bytes")
+
 UPD = "harness/clock-bound-d/verif_updater.rs"
 
 
@@ -245,13 +291,51 @@ PROPS = {
         "functions": ["clock_bound_shm::writer::<ShmWriter as ShmWrite>::write"],
         "assumptions": [A["tools"], A["seq_atomics"], A["weaver"]],
         "trusted": ["tools/weave (vlib.Workspace.apply)", "harness/clock-bound-shm/verif_write.rs (oracle next_gen, Seg layout)"],
-        "groups": [
-            {"kind": "kani", "crate": "clock-bound-shm", "units": ["shm_write"], "modpath": "writer::verif_write",
-             "harnesses": [
-                 {"name": "c11_write_contract", "file": "harness/clock-bound-shm/verif_write.rs",
-                  "also": ["C11.write.gen_odd_before_copy", "C11.write.gen_odd_after_copy"],
-                  "replayable": True, "tier": "quick", "timeout": 300},
-             ]},
-        ],
+        "groups": [dict(SHM_WRITE_GRP, harnesses=[C11_WRITE])],
+    },
+    "C03": {
+        "functions": ["clock_bound_shm::reader::ShmReader::snapshot", "clock_bound_shm::writer::<ShmWriter as ShmWrite>::write"],
+        "assumptions": [A["tools"], A["seq_atomics"], A["weaver"],
+                        "call granularity only: the segment does not change while a snapshot call executes ('no update is in flight'); calls overlapping an update are C02's quantifier and are not covered",
+                        "snapshot's retry loop is unwound twice with the unwinding assertion on (with a quiescent segment the first iteration returns)"],
+        "trusted": ["harness/clock-bound-shm/verif_read.rs (Seg layout, reader_over)"],
+        "groups": [dict(SHM_READ_GRP, harnesses=[sh("c03_snapshot_quiescent", RD)]),
+                   dict(SHM_WRITE_GRP, harnesses=[C11_WRITE, sh("c16_write_then_fresh_snapshot_roundtrip", WR)])],
+    },
+    "C04": {
+        "functions": ["clock_bound_shm::reader::ShmReader::{snapshot, new}", "clock_bound_shm::writer::ShmWriter::new", "clock_bound_shm::writer::<ShmWriter as ShmWrite>::write",
+                      "clock_bound_shm::shm_header::ShmHeader::{read, is_valid}"],
+        "assumptions": [A["tools"], A["seq_atomics"], A["weaver"], A_POSIX, A_FS_STUBS,
+                        "crash *states*, not schedules: every prefix of write leaves (generation odd, record arbitrary) or (generation even, record complete) [C11 probes]; every prefix of wipe "
+                        "leaves a prefix of (magic, size, version 0, generation 0, zeros), a subset of 'any bytes'; interleavings of the restarted writer with concurrent reader calls are not covered (C02)"],
+        "trusted": ["harness/clock-bound-shm/verif_write.rs, verif_read.rs, posix_model.c"],
+        "groups": [dict(SHM_READ_GRP, harnesses=[sh("c03_snapshot_quiescent", RD)]),
+                   dict(SHM_READ_GRP, c_lib=POSIX, harnesses=[OPEN_H]),
+                   dict(SHM_WRITE_GRP, harnesses=[C11_WRITE, sh("c04_new_takeover_or_wipe", WR, replayable=False),
+                                                  sh("c16_write_then_fresh_snapshot_roundtrip", WR)])],
+    },
+    "C16": {
+        "functions": ["clock_bound_shm::shm_header::ShmHeader::{is_valid, read, matches_magic, has_valid_version, is_initialized, is_well_formed}",
+                      "clock_bound_shm::reader::{FdGuard::new, FdGuard::drop, MmapGuard::new, MmapGuard::drop, ShmReader::new, ShmReader::snapshot}",
+                      "clock_bound_shm::writer::ShmWriter::{segment_size, new}", "clock_bound_shm::writer::<ShmWriter as ShmWrite>::write"],
+        "assumptions": [A["tools"], A["seq_atomics"], A["weaver"], A_POSIX, A_FS_STUBS,
+                        "the FFI / Rust client open paths (clockbound_open, ClockBoundClient::new_with_path) call ShmReader::new and convert the error (conversions: C14/C17 obligations)"],
+        "trusted": ["harness/clock-bound-shm/{verif_header.rs, verif_read.rs, verif_write.rs, posix_model.c}"],
+        "groups": [dict(SHM_HDR_GRP, harnesses=[sh("c16_header_is_valid", HD)]),
+                   dict(SHM_READ_GRP, c_lib=POSIX, harnesses=[OPEN_H]),
+                   dict(SHM_WRITE_GRP, harnesses=[sh("c16_segment_size", WR), sh("c16_write_then_fresh_snapshot_roundtrip", WR),
+                                                  sh("c04_new_takeover_or_wipe", WR, replayable=False)])],
+    },
+    "C18": {
+        "functions": ["clock_bound_shm::reader::ShmReader::snapshot"],
+        "assumptions": [A["tools"], A["seq_atomics"], A["weaver"],
+                        "adversarial writer modelled by woven environment steps that overwrite version, generation and record with nondeterministic values before every shared access",
+                        "BOUNDED: the retry budget literal is overridden to 3 in the adversarial harness and the loop fully unwound; the loop body does not mention the budget, retries is "
+                        "decremented exactly once per iteration and never otherwise assigned (syntactic), so the work bound scales to 1 000 000; Kani's loop contracts were tried and do not go through "
+                        "in this version (write-set failures), termination itself is not proved by Kani"],
+        "trusted": ["harness/clock-bound-shm/verif_read.rs (environment_step, ghost counters)"],
+        "groups": [dict(SHM_READ_GRP, harnesses=[sh("c03_snapshot_quiescent", RD),
+                                                 sh("c18_snapshot_adversarial_bounded", RD, replayable=False,
+                                                    completeness="bounded: retry budget overridden to 3 (real: 1 000 000), loop fully unwound")])],
     },
 }
